@@ -55,6 +55,7 @@ def known_witnesses(run, d, quiet=False):
     entries = {e.get("signature"): e for e in report.known_findings(PROP) if e.get("status") == "known"}
     out = {}
     OBJ.lift_q = OBJ.lift_s = OBJ.lift_b = False
+    OBJ.inner_labels = False
     for p in sorted(glob.glob(os.path.join(env.VERIF, "corpus", "treedist", "known_*.json"))):
         w = json.load(open(p, encoding="utf8"))
         sig, case = w["signature"], OBJ.from_json(w["case"])
@@ -78,6 +79,8 @@ def known_witnesses(run, d, quiet=False):
                 OBJ.lift_q = True
             elif sig == "blank-name-roundtrip":
                 OBJ.lift_b = True
+            elif sig == "inner-node-labels":
+                OBJ.inner_labels = True
         elif recorded and sig in entries:
             out[sig] = "still fails as recorded"
             e = entries[sig]
@@ -102,7 +105,7 @@ def _failing_taxa(run, limit=3):
             case = json.load(open(path)).get("case")
         except Exception:
             case = None
-        if not case:
+        if not case or "a" not in case:
             continue
         taxa = []
         for k in ("a", "b"):
@@ -163,7 +166,7 @@ def main(tier, seed):
                  "236^2 pairs on 5 taxa (mixed names); for random trees on 4-6 taxa every child ordering of a (capped at %d per tree); "
                  "seeded random pairs on 4-9 taxa (binary and multifurcating; identical, neighbouring, random, star, "
                  "other-taxa and fewer-taxa partners; with and without branch lengths, also on the root; plain, "
-                 "white-space-laden and semicolon-less texts; seven name alphabets).  Object streams: Tree objects with "
+                 "white-space-laden and semicolon-less texts; eight name alphabets incl. underscore names, quoted sources).  Object streams: Tree objects with "
                  "odd-but-legal names (blanks, quoted labels with _ [ ] quotes , : ; parentheses), all five Newick writers "
                  "re-parsed, and histories on one object (use, then swap/rename tips, reverse children, move/remove a tip, "
                  "use again) checked against the reference values of the tree the object should now be; raw texts "
